@@ -163,7 +163,8 @@ func VerifC16PosD(tmpl string, n, alpha, steps int, mix, allowDup bool) {
 //     input for truncated input) starts at or contains ByteOffset: ErrTok <= ByteOffset <= ErrPos,
 //     where a ',' directly followed by '}' or ']' may itself be taken as the offending token
 //   - JSONPointer is the pointer of the innermost object/array open at ByteOffset, or of its
-//     direct child in which the offset lies (member whose value is due / next array element);
+//     direct child in which the offset lies (the member whose name has been read and whose value
+//     is due; the next array element where an element may start: after '[' or ',');
 //     for a duplicate name it is container + "/" + escaped name.
 func VerifC16ErrD(tmpl string, n, alpha int, valuePath, allowDup bool) {
 	b := zz16Input(tmpl, n, alpha)
@@ -207,7 +208,7 @@ func VerifC16ErrD(tmpl string, n, alpha int, valuePath, allowDup bool) {
 	vrt.Assert("C16/errD/offending-token-at-offset", full.ErrTok <= off && off <= full.ErrPos || trailingSep)
 
 	at := zzspec.NewTracker(true, !allowDup)
-	at.Run(b[:off])
+	rat := at.Run(b[:off])
 	parent := at.ContainerPointer()
 	got := []byte(se.JSONPointer)
 	if full.Dup || se.Err == ErrDuplicateName {
@@ -216,7 +217,10 @@ func VerifC16ErrD(tmpl string, n, alpha int, valuePath, allowDup bool) {
 		vrt.Assert("C16/errD/duplicate-name-pointer", full.Dup && bytes.Equal(got, want))
 		return
 	}
-	child, hasChild := at.NextChildPointer()
+	// the offset lies behind a ',' (in the whitespace after it or in the token that follows it)
+	// when the tracker ran out of input with a separator read
+	afterComma := rat == zzspec.Truncated && at.ErrSep >= 0
+	child, hasChild := at.NextChildPointer(afterComma)
 	okPtr := bytes.Equal(got, parent) || hasChild && bytes.Equal(got, child)
 	if at.Depth() >= 2 {
 		vrt.Cover("nested")
